@@ -1,6 +1,7 @@
 import BarterModel.Lemmas.EngineScope
 import BarterModel.Lemmas.Review1Engine
 import BarterModel.Lemmas.KernelsAgree.FiltersActionsSM
+import BarterModel.Lemmas.EngineNetting
 /-!
 # C19 — Cancel-orders and close-positions commands act on exactly the filtered scope
 
@@ -550,6 +551,74 @@ example :
     let e1 := (process demo (.command (.cancelOrders .none)) [] [] (fun _ => false)).1
     let e2 := (process e1 (.update (.order 0 (.cancelResp 2 false))) [] [] (fun _ => false)).1
     cancelRequests e2 .none = [⟨⟨0, 0, 2⟩, some 7⟩] := by decide +kernel
+
+/-! ## (7) the position a close request reads is the NET of the fills (engine-level netting)
+
+The engine-level model carries `(side, quantity_abs)` of the open position; account trades on an
+instrument that ALREADY holds a position are netted by `netFill` (the driver resolves `ev fill i side q`
+to `fillUpdate`). `netFill` is the projection of the C02 position model (`netFill_is_position_model`,
+`enter_is_position_model`), so the position that `closeRequests` turns into a closing order is, after
+any history of fills of positive quantity, the signed sum of the fills: opposite side, absolute size. -/
+
+/-- one fill adds its signed quantity -/
+theorem fill_adds_signed_quantity (pos : Option (Side × Rat)) (side : Side) (q : Rat) :
+    signedQty (netFill pos side q) = signedQty pos + signedFill side q :=
+  signedQty_netFill pos side q
+
+/-- a carried position keeps a positive open quantity under fills of positive quantity -/
+theorem fill_keeps_quantity_positive (pos : Option (Side × Rat)) (side : Side) (q : Rat)
+    (h : PosWF pos) (hq : 0 < q) : PosWF (netFill pos side q) :=
+  netFill_wf pos side q h hq
+
+/-- after ANY history of fills (positive quantities) from flat, the carried position is the signed sum:
+long iff positive, short iff negative, flat iff zero, with the absolute size -/
+theorem net_position_after_fills (fills : List (Side × Rat)) (hq : ∀ f ∈ fills, 0 < f.2) :
+    netAll fills none =
+      (if 0 < signedSum fills then some (.buy, signedSum fills)
+       else if signedSum fills < 0 then some (.sell, -signedSum fills) else none) := by
+  have h := pos_of_signed (netAll fills none) (netAll_wf fills none trivial hq)
+  have e : signedQty (netAll fills none) = signedSum fills := by
+    rw [signedQty_netAll]; simp [signedQty, Rat.zero_add]
+  rw [e] at h; exact h
+
+/-- the trade the audit replica is told about (`tradeBetween`, used by the record digest) is the trade
+that was netted: `netFill` and `tradeBetween` are inverse -/
+theorem netted_trade_is_recovered (pos : Option (Side × Rat)) (side : Side) (q : Rat) (hq : 0 < q) :
+    tradeBetween pos (netFill pos side q) = some (side, q) :=
+  tradeBetween_netFill pos side q hq
+
+/-- `netFill` is `Position::update_from_trade` of the C02 model projected on (side, quantity_abs) -/
+theorem netting_is_the_position_model (p : BarterModel.Position.Position) (t : BarterModel.Position.Trade)
+    (hi : p.instrument = t.instrument) (hq : 0 < t.quantity) :
+    carried (p.updateFromTrade t).1
+      = netFill (some (ofPSide p.side, p.quantityAbs)) (ofPSide t.side) t.quantity :=
+  netFill_is_position_model p t hi hq
+
+theorem entering_is_the_position_model (t : BarterModel.Position.Trade) (hq : 0 < t.quantity) :
+    carried (BarterModel.Position.PositionManager.init.update t).1.current
+      = netFill none (ofPSide t.side) t.quantity :=
+  enter_is_position_model t hq
+
+/-- applying the resolved update leaves the instrument with the netted position -/
+theorem fill_update_sets_net (e : Eng) (i : Nat) (side : Side) (q : Rat) (s : Instr)
+    (h : e.instruments[i]? = some s) :
+    ((applyUpdate e (fillUpdate e i side q)).instruments[i]?).map (·.position)
+      = some (netFill s.position side q) := by
+  unfold fillUpdate
+  simp only [h, Option.bind_some]
+  cases hp : s.position with
+  | none => simp [applyUpdate, modifyInstr_getElem?, h, netFill]
+  | some p =>
+    simp only
+    cases hn : netFill (some p) side q with
+    | none => simp [applyUpdate, modifyInstr_getElem?, h]
+    | some r => obtain ⟨s', q'⟩ := r; simp [applyUpdate, modifyInstr_getElem?, h]
+
+-- the hypotheses are satisfiable and the arms are all reached: long 3, +2 → long 5; −5 → flat; −7 → short 2
+example : netAll [(.buy, 3), (.buy, 2)] none = some (.buy, 5) := by simp [netAll, netFill] <;> grind
+example : netAll [(.buy, 3), (.buy, 2), (.sell, 5)] none = none := by simp [netAll, netFill] <;> grind
+example : netAll [(.buy, 3), (.sell, 1)] none = some (.buy, 2) := by simp [netAll, netFill] <;> grind
+example : netAll [(.buy, 3), (.sell, 7)] none = some (.sell, 4) := by simp [netAll, netFill] <;> grind
 
 /-- **Tie to the source by translation: the instrument filter and the request generators.** `InstrumentFilter` with its three
 constructors (barter/src/engine/state/instrument/filter.rs), `InstrumentStates::{filtered, instruments, orders, positions,
